@@ -9,7 +9,8 @@ RULE = ("random call sequences (1-20 ops quick, 1-40 thorough) on a real Histori
         "enumerates every sequence of length <= 4 over 11 symbols around one timestamp (16 105 sequences). Compared: the event's "
         "time_exchange(), the stored time_exchange_last and whether time_live_last_event was re-read (both through the clock's Debug "
         "impl), and for time() that the returned value is last + (w - anchor) for a wall reading w between one taken before and one "
-        "taken after the call. A case is distinct by the SHA-1 of its op lines and non-trivial when the implementation's observation "
+        "taken after the call. An input-domain family (cases d<n>, one per 10 random cases, own PRNG stream) runs the same sequences around the instants the random cases "
+        "(all near 1.7e18 ns) never reach: the epoch itself, +-1 ns, sub-millisecond instants, and instants BEFORE 1970 (negative nanosecond counts: -1 ms, -1 s, -1 day). A case is distinct by the SHA-1 of its op lines and non-trivial when the implementation's observation "
         "blocks differ at least once")
 ASSUMPTIONS = [
     "Utc::now() is an input: the model takes every wall-clock reading as an explicit argument; the correspondence cannot control it and "
